@@ -12,6 +12,8 @@ struct NmtRun : NodeEnv {
     uint8_t syncCount = 0;
     // TPDO 0 may have an inhibit time: a trigger inside the window is deferred to its end - and must still respect the NMT gate then
     uint64_t inhTicks = 0, inhEnd = 0; bool inhibited = false, pending = false;
+    // RPDO 1 is synchronous (type 1): its frame is buffered and applied by the next SYNC - in OPERATIONAL only
+    int sBuf = 0; /* 0 nothing buffered, 1 buffered, 2 buffered when OPERATIONAL was left: may or may not survive */ uint8_t sVal = 0;
     NmtRun(const Plan &p, Cov &c, bool vb) : NodeEnv(p, c, vb) {}
 
     void build() {
@@ -25,9 +27,10 @@ struct NmtRun : NodeEnv {
         add_typed(specs, T_HBPROD, 0x1017, 0, CO_OBJ_____RW, hbMs);
         rpdoId = variant == 1 ? 0x80u : variant == 2 ? 0x600u + nodeId : 0x200u + nodeId;
         add_rpdo(specs, 0, rpdoId, 254, {CO_LINK(0x2100, 1, 8)}, false);
+        add_rpdo(specs, 1, 0x300u + nodeId, 1, {CO_LINK(0x2100, 4, 8)}, false);
         add_tpdo(specs, 0, 0x40000180u + nodeId, 254, (uint16_t)(inhTicks * 10), 0, {CO_LINK(0x2100, 2, 8)}, false);
         add_tpdo(specs, 1, 0x40000280u + nodeId, 1, 0, 0, {CO_LINK(0x2100, 3, 8)}, false);
-        add_u8(specs, 0x2100, 0, CO_OBJ_D___R_, 3); add_u8(specs, 0x2100, 1, CO_OBJ____PRW, 0x11); add_u8(specs, 0x2100, 2, CO_OBJ____PRW, 0x22); add_u8(specs, 0x2100, 3, CO_OBJ____PRW, 0x33);
+        add_u8(specs, 0x2100, 0, CO_OBJ_D___R_, 4); add_u8(specs, 0x2100, 1, CO_OBJ____PRW, 0x11); add_u8(specs, 0x2100, 2, CO_OBJ____PRW, 0x22); add_u8(specs, 0x2100, 3, CO_OBJ____PRW, 0x33); add_u8(specs, 0x2100, 4, CO_OBJ____PRW, 0x44);
         NodeCfg cfg; cfg.nodeId = nodeId; cfg.freq = freq; cfg.tmrNum = 16;
         w.build(0, cfg, specs, {}, {{1, 0x2000}, {2, 0x3000}});
         w.init(0);
@@ -42,8 +45,8 @@ struct NmtRun : NodeEnv {
         if (oldM == newM) { if (!cbs.empty()) fail("modechange/spurious", std::string("mode-change callback although the mode did not change: ") + where); }
         else if (cbs.size() != 1 || cbs[0] != newM) fail("modechange/missing", std::string("expected exactly one mode-change callback with mode ") + std::to_string(newM) + " after " + where);
     }
-    void onReset() { prevHbState = 0; hbArmed = false; syncCount = 0; inhibited = pending = false; }
-    void modeChanged(int old) { if (m == M_OP && old != M_OP) inhibited = pending = false; if (m == M_INVALID) inhibited = pending = false; }   // (re-)entering OPERATIONAL re-initialises the TPDOs
+    void onReset() { prevHbState = 0; hbArmed = false; syncCount = 0; inhibited = pending = false; sBuf = 0; }
+    void modeChanged(int old) { if (m == M_OP && old != M_OP) inhibited = pending = false; if (m == M_INVALID) { inhibited = pending = false; sBuf = 0; } if (old == M_OP && m != M_OP && sBuf == 1) { sBuf = 2; cov.hit("left-operational-with-buffered-sync-rpdo"); } }   // (re-)entering OPERATIONAL re-initialises the TPDOs
     // TPDO frames the model expects while time advances from t0 to t1 (the inhibit timer runs in every mode; only OPERATIONAL may send)
     int deferredDue(uint64_t t1) {
         int n = 0;
@@ -93,9 +96,18 @@ struct NmtRun : NodeEnv {
             if (m == M_OP) { if (w.raw(0, 0x2100, 1) != val) fail("gating/rpdo-not-applied", "RPDO did not write its object in OPERATIONAL"); expectClaimed(fx, "RPDO"); int pr = 0; for (auto &e : fx.evs) if (e.kind == EV_PDORECEIVE) pr++; if (pr != 1) fail("rpdo/receive-callback", "COPdoReceive called " + std::to_string(pr) + " times"); if (variant == 1) { /* at most one service: must not also count as SYNC */ for (auto &t : fx.tx) if (t.id == 0x280u + nodeId) fail("one-service/rpdo-and-sync", "a frame consumed as RPDO also triggered the synchronous TPDO"); } else if (!fx.tx.empty()) fail("rpdo/tx", "transmission on RPDO reception"); }
             else { if (w.raw(0, 0x2100, 1) != before) fail("gating/rpdo-outside-op", "RPDO changed its object in mode " + std::to_string(m)); expectUnclaimed(fx, "RPDO frame"); }
         }
+        else if (k == "p_srpdo") {
+            if (variant != 0) return; uint8_t val = (uint8_t)o.arg(0); uint32_t before = w.raw(0, 0x2100, 4); Fx fx = deliver(Frame(0x300u + nodeId, 1, {val}));
+            if (w.raw(0, 0x2100, 4) != before) { fail(m == M_OP ? "rpdo/sync-applied-on-reception" : "gating/rpdo-outside-op", "a synchronous RPDO changed its object on reception in mode " + std::to_string(m)); return; }
+            if (m == M_OP) { expectClaimed(fx, "synchronous RPDO"); sBuf = 1; sVal = val; if (!fx.tx.empty()) fail("rpdo/tx", "transmission on RPDO reception"); } else expectUnclaimed(fx, "RPDO frame");
+        }
         else if (k == "p_sync") {
             if (variant == 1) return;
-            uint32_t b1 = w.raw(0, 0x2100, 1); Fx fx = deliver(Frame(0x80, 0, {}));
+            uint32_t b1 = w.raw(0, 0x2100, 1), b4 = w.raw(0, 0x2100, 4); Fx fx = deliver(Frame(0x80, 0, {}));
+            { uint32_t a4 = w.raw(0, 0x2100, 4);
+              if (m == M_OP) { if (sBuf == 1 && a4 != sVal) { fail("gating/sync-rpdo-not-applied", "SYNC in OPERATIONAL did not apply the buffered synchronous RPDO"); return; } if (sBuf == 0 && a4 != b4) { fail("sync/object-changed", "SYNC changed the object of the synchronous RPDO although nothing was buffered"); return; } if (sBuf == 2 && a4 != b4 && a4 != sVal) { fail("sync/object-changed", "SYNC wrote a value that was never received"); return; } if (sBuf == 1) cov.hit("sync-rpdo-applied"); sBuf = 0; }
+              else if (a4 != b4) { fail("gating/sync-rpdo-outside-op", "SYNC in mode " + std::to_string(m) + " wrote the buffered synchronous RPDO into its object"); return; }
+              else if (sBuf == 2) { cov.hit("sync-outside-operational-with-buffered-rpdo"); nontrivial = true; } }
             if (m == M_OP) { int n = 0; for (auto &t : fx.tx) { if (t.id == 0x280u + nodeId && t.dlc == 1 && t.d[0] == (uint8_t)w.raw(0, 0x2100, 3)) n++; else fail("sync/tx", "unexpected frame on SYNC: " + t.str()); } if (n != 1) fail("gating/sync-tpdo", "type-1 TPDO sent " + std::to_string(n) + " times on SYNC in OPERATIONAL"); expectClaimed(fx, "SYNC"); }
             else if (m == M_PREOP) { if (!fx.tx.empty()) fail("gating/sync-tx-preop", "transmission on SYNC in PRE-OPERATIONAL: " + fx.tx[0].str()); expectClaimed(fx, "SYNC"); }
             else expectUnclaimed(fx, "SYNC frame");
@@ -156,7 +168,7 @@ Plan gen_nmt(Rng &r, bool thorough) {
         else if (c == 7) p.ops.push_back(r.chance(1, 2) ? Op("reset", {(int64_t)r.below(2)}) : Op("start"));
         else if (c == 8) { if (r.chance(1, 3)) { p.ops.push_back(Op("stop")); if (r.chance(2, 3)) { p.ops.push_back(Op("p_foreign", {0x123}, {1, 2, 3})); p.ops.push_back(Op("reinit")); p.ops.push_back(Op("start")); } } else p.ops.push_back(Op("p_lss", {(int64_t)r.below(2)})); }
         else if (c == 9) p.ops.push_back(Op("p_sdo"));
-        else if (c == 10) p.ops.push_back(Op("p_rpdo", {(int64_t)r.range(1, 255)}));
+        else if (c == 10) p.ops.push_back(Op(r.chance(1, 3) ? "p_srpdo" : "p_rpdo", {(int64_t)r.range(1, 255)}));
         else if (c == 11) p.ops.push_back(Op("p_sync"));
         else if (c == 12) p.ops.push_back(Op("p_hb", {r.pick<int64_t>({0, 4, 5, 127, 5, 5})}));
         else if (c == 13) p.ops.push_back(Op("p_foreign", {r.pick<int64_t>({0x123, 0x7FF, 0x100, 0x481, 0x581, 0x77F, 0x1FFFFFFF, 0x7E4})}, {r.byte(), r.byte(), r.byte()}));
@@ -164,6 +176,8 @@ Plan gen_nmt(Rng &r, bool thorough) {
         else if (c == 15) { p.ops.push_back(Op("p_trig")); if (r.chance(1, 2)) p.ops.push_back(Op("p_trig")); }
         else p.ops.push_back(Op("p_tick"));
     }
+    // a synchronous RPDO buffered in OPERATIONAL, the state left before its SYNC, the SYNC outside OPERATIONAL
+    if (p.cfg["variant"] == 0 && r.chance(1, 4)) { p.ops.push_back(Op("nmt", {1, nid, 2})); p.ops.push_back(Op("p_srpdo", {(int64_t)r.range(1, 255)})); if (r.chance(3, 4)) p.ops.push_back(Op("nmt", {r.pick<int64_t>({128, 128, 2}), nid, 2})); p.ops.push_back(Op("p_sync")); if (r.chance(1, 2)) { p.ops.push_back(Op("nmt", {1, nid, 2})); p.ops.push_back(Op("p_sync")); } }
     // a TPDO event deferred by the inhibit time, the state left before the window ends, ticks across its end
     if (p.cfg["inh"] && r.chance(1, 3)) { p.ops.push_back(Op("nmt", {1, nid, 2})); p.ops.push_back(Op("p_trig")); p.ops.push_back(Op("p_trig")); if (r.chance(1, 3)) { p.ops.push_back(Op("p_tick")); p.ops.push_back(Op("p_trig")); } p.ops.push_back(r.chance(1, 4) ? Op("setmode", {r.pick<int64_t>({2, 4})}) : Op("nmt", {r.pick<int64_t>({2, 128, 2, 128, 130}), nid, 2})); int k = (int)r.range(1, 4); for (int i = 0; i < k; i++) p.ops.push_back(Op("p_tick")); if (r.chance(1, 2)) { p.ops.push_back(Op("nmt", {1, nid, 2})); p.ops.push_back(Op("p_tick")); } }
     return p;
